@@ -209,8 +209,37 @@ P.fn(F + 'equal.invoke', name='equal.invoke', params=dict(self='equal', tex='TeX
      ensures=['len(result) == 1', 'isinstance(result[0], _boolToken)', 'result[0].state == (ARG_first(self) == ARG_second(self))'],
      allocates=True, modifies=[Mod('state', 'False'), Mod('list:Item', 'False')], calls={'self.parse': 'equal.parse'})
 
+# ---------------------------------------------------------------------------------------------- \\lengthtest{A rel B}
+P.cls('lengthtest', bases=['Command'])
+P.ghost('nrd', 'int')
+P.uninterp('DIM_A', [], 'real')
+P.uninterp('DIM_B', [], 'real')
+P.uninterp('RELTOK', [], 'Item')
+P.fn('lengthtest.parse', params=dict(self='lengthtest', tex='TeX'), returns='dict[str,Item]', ensures=['"test" in result'], allocates=True, trusted=True,
+     notes='Macro.parse binds the declared argument names (C05)')
+P.fn('TeX.pushTokens/l', params=dict(self='TeX', toks='opaque'), returns='none', trusted=True, modifies=[])
+P.fn('TeX.readDimen/l', params=dict(self='TeX'), returns='real', trusted=True, modifies=[],
+     ensures=['result == (DIM_A() if old(ghost("nrd")) == 0 else DIM_B())'], ghost_sets={'nrd': 'ghost("nrd") + 1'},
+     notes='TeX.readDimen (C05): the first call reads the left length, the second the right one')
+P.fn('next_token', params=dict(it='opaque'), returns='Item', trusted=True, modifies=[], ensures=['result is RELTOK()', 'not isnone(result)'],
+     notes='next(tex.itertokens()): the relation character between the two lengths')
+P.fn('TeX.itertokens/l', params=dict(self='TeX'), returns='opaque', trusted=True, modifies=[])
+ISREL = lambda ch: '(isinstance(RELTOK(), Token) and RELTOK().text == "%s")' % ch
+P.fn(F + 'lengthtest.invoke', name='lengthtest.invoke', params=dict(self='lengthtest', tex='TeX'), returns='list[Item]',
+     requires=['ghost("nrd") == 0'],
+     ensures=['len(result) == 1', 'isinstance(result[0], _boolToken)',
+              # the comparison the test spells; equality up to one millionth of a scaled point in either direction (TeX compares integers
+              # of scaled points, plasTeX computes lengths in floating point)
+              'implies(%s, result[0].state == (DIM_A() < DIM_B()))' % ISREL('<'),
+              'implies(%s, result[0].state == (DIM_A() > DIM_B()))' % ISREL('>'),
+              'implies(%s, result[0].state == (DIM_A() - DIM_B() < 0.000001 and DIM_B() - DIM_A() < 0.000001))' % ISREL('=')],
+     raises={'ValueError': 'iff:not (%s or %s or %s)' % (ISREL('<'), ISREL('>'), ISREL('='))},
+     allocates=True, modifies=[Mod('state', 'False'), Mod('list:Item', 'False')],
+     calls={'self.parse': 'lengthtest.parse', 'tex.pushTokens': 'TeX.pushTokens/l', 'tex.readDimen': 'TeX.readDimen/l', 'next': 'next_token',
+            'tex.itertokens': 'TeX.itertokens/l'})
+
 P.assume('A5: the test expression reaching evaluate() is the expanded token list (expansion loop not verified)')
 P.assume('token equality: a Command or number never equals a str; Token == str compares text (ground/token-eq in native/C19.py)')
 P.unverified_surrounding('evaluate(), infix-to-postfix phase: bounded check (native/C19.py bounded/infix), not proved')
 P.unverified_surrounding('ifthenelse.invoke / whiledo.invoke argument parsing and expansion (tex.expandTokens): call protocol only')
-P.unverified_surrounding('lengthtest (floating point, A3), boolean / isundefined (context lookups)')
+P.unverified_surrounding('boolean / isundefined (context lookups); lengthtest: the lengths themselves are read by TeX.readDimen in floating point (A3)')
